@@ -143,19 +143,23 @@ def runtime_value(st, order):
 
 def run(rep, tier):
     prog = program(['conjure_http'])
-    R = 2 if tier == 'quick' else 3
-    QK = 5
+    R = 2
+    QK = 5 if tier == 'quick' else 6
     rep.bounds['response'] = (f'one Accept header value with <= {R} parsed media ranges (unparsable entries included): type in {TYPES}, subtype in {SUBS}, '
                               f'optional +suffix in {SUFFIXES}, optional charset parameter, optional q whose text is any ASCII string of <= {QK} bytes; '
                               'both registration orders of the JSON and Smile encodings')
     rep.bounds['request'] = 'Content-Type absent / not text / unparsable / parsed (same alphabet, with suffix and parameter), both registration orders'
     run_quality_kernel(rep, prog)
     run_response(rep, prog, R, QK)
+    if tier != 'quick':
+        # three ranges without q parameters (specificity / order / registration interplay); with q texts one three-range
+        # configuration alone runs for more than an hour, which is outside what this check can afford
+        run_response(rep, prog, 3, QK, shapes=[(False, False), (False, True)], tag='R3')
     run_request(rep, prog)
     rep.assumptions += ['mediatype: MediaType/MediaTypeList parsing is outside (ranges arrive parsed); Name equality is ASCII case-insensitive string equality; essence() keeps type, subtype and suffix; get_param returns the last match',
                         'std: stable sort_by, max_by returns the last maximum, iterator adaptors lazy; http: HeaderMap::get/get_all, HeaderValue::to_str',
                         'q strings outside the RFC 9110 qvalue grammar: only "no panic" is required (the statement is silent)']
-    rep.outside += ['text -> media range parsing (mediatype crate)', f'more than {R} ranges, several Accept header lines, custom encodings']
+    rep.outside += ['text -> media range parsing (mediatype crate)', f'more than {R} ranges with q parameters (thorough: three ranges without q), several Accept header lines, custom encodings']
 
 
 def run_quality_kernel(rep, prog):
@@ -205,12 +209,14 @@ def report_quality(rep, qb, what):
         rep.inconc(f'model mismatch C11 quality: q={qb!r} {what} does not reproduce natively: {r}')
 
 
-def run_response(rep, prog, R, QK):
+def run_response(rep, prog, R, QK, shapes=None, tag=''):
     fn = find_fn(prog, 'response_body_encoding', inpath='::server::runtime::')
-    shapes = list(itertools.product([False, True], repeat=2))            # (has q, has charset) per range: concrete list shapes
+    shapes = shapes or list(itertools.product([False, True], repeat=2))            # (has q, has charset) per range: concrete list shapes
     from mirsym.harness import replay_binary
     replay_binary()          # built once before the configurations fan out over processes
     jobs = [(order, shp) for order in (['JsonEncoding', 'SmileEncoding'], ['SmileEncoding', 'JsonEncoding']) for shp in itertools.product(shapes, repeat=R)]
+
+    tag0 = tag
 
     def worker(rep, job):
         order, shp = job
@@ -248,7 +254,7 @@ def run_response(rep, prog, R, QK):
                 np_ += 1
                 total += 1
                 rep.states += 1
-                tag = f'response:{"".join(n[0] for n in order)}:{"".join(str(int(a)) + str(int(b)) for a, b in shp)}:path{np_}'
+                tag = f'response{tag0}:{"".join(n[0] for n in order)}:{"".join(str(int(a)) + str(int(b)) for a, b in shp)}:path{np_}'
                 if isinstance(rv, Unwind):
                     rep.inconc(f'C11 {tag}: unwind {rv.where}')
                     continue
